@@ -331,6 +331,43 @@ func runC13(c *rt.Ctx) {
 		size.Formatter = old
 		c.Require("failing-formatter-episode", 1)
 	}
+	// sizes that shorten to the same number under different units, rendered back to back on one goroutine (a rendering
+	// remembered under the number alone shows only here), and the same value under all formats in every order
+	c.Serial("same-number-other-unit", func(w *rt.W) {
+		for _, m := range []uint64{1, 7, 999, 1000, 1023, 1500, 12345, 999999, 1000000, 123456789} {
+			if m%1024 == 0 {
+				continue
+			}
+			var sizes []uint64
+			for k := uint(0); k <= 60; k += 10 {
+				if hi, lo := mul64(m, uint64(1)<<k); hi == 0 {
+					sizes = append(sizes, lo)
+				}
+			}
+			for _, a := range sizes {
+				for _, b := range sizes {
+					c13Case(w, a)
+					c13Case(w, b)
+					for _, pair := range [][2]size.Format{{size.FormatPretty, size.FormatPretty}, {size.FormatPretty | size.FormatHTML, size.FormatPretty}, {0, size.FormatPretty}, {size.FormatPretty, 0}} {
+						o1, _ := size.DefaultFormatter(nil, size.Size(a), pair[0])
+						o2, _ := size.DefaultFormatter(nil, size.Size(b), pair[1])
+						v2, u2 := ref.Shorten(b)
+						d2 := strconv.FormatUint(v2, 10)
+						want2 := d2 + u2
+						if pair[1]&size.FormatPretty != 0 {
+							want2 = ref.Group3(d2, " ") + " " + u2
+						}
+						w.Eval(2)
+						if string(o2) != want2 {
+							w.Fail("rendering-after-same-number-other-unit", "render", rt.Args("size", fmt.Sprint(b), "path", fmt.Sprintf("DefaultFormatter(%d) right after DefaultFormatter(%d) of %d (%s)", pair[1], pair[0], a, o1)), string(o2), want2, "a rendering depends on what was rendered just before")
+						}
+					}
+				}
+			}
+			w.ClassN("same-number-other-unit", 1)
+		}
+	})
+	c.Require("same-number-other-unit", 8)
 	c.Parallel("below-2^20", 0, func(w *rt.W) {
 		for s := uint64(w.Shard); s < 1<<20; s += uint64(w.NShards) {
 			c13Case(w, s)
